@@ -116,7 +116,9 @@ class DottedCircleFilter(BaseFilter):
         if dotted_circle_glyph == DO_NOTHING:
             return set()
 
-        if not dotted_circle_glyph:
+        # (is None: a glyph object without contours -- a dotted circle made only of
+        # components -- is falsy)
+        if dotted_circle_glyph is None:
             dotted_circle_glyph = self.draw_dotted_circle(glyphSet)
             added_glyph = True
 
